@@ -48,12 +48,30 @@ impl Fact {
                     .map(|name| name.to_string())
                     .collect::<Vec<_>>();
 
-                if invalid_parameters.is_empty() {
+                if !invalid_parameters.is_empty() {
+                    return Err(error::Token::Language(
+                        biscuit_parser::error::LanguageError::Parameters {
+                            missing_parameters: invalid_parameters,
+                            unused_parameters: vec![],
+                        },
+                    ));
+                }
+
+                // a parameter can be bound and still not be replaceable (a map key bound to
+                // a value that is neither an integer nor a string): refuse the fact here
+                // rather than panic when it is converted
+                let mut fact = self.clone();
+                fact.apply_parameters();
+                let mut remaining = HashMap::new();
+                for term in &fact.predicate.terms {
+                    term.extract_parameters(&mut remaining);
+                }
+                if remaining.is_empty() {
                     Ok(())
                 } else {
                     Err(error::Token::Language(
                         biscuit_parser::error::LanguageError::Parameters {
-                            missing_parameters: invalid_parameters,
+                            missing_parameters: remaining.into_keys().collect(),
                             unused_parameters: vec![],
                         },
                     ))
